@@ -464,7 +464,9 @@ class Check:
     level = "exploration"
     rule = (
         "Hypothesis: 2-6 generated classes (OvldBase / metaclass=OvldMC roots, depth <= 3, multiple bases, plain mixin "
-        "classes), 0-4 same-named definitions each with optional @extend_super / @ovld(priority), bodies with self, "
+        "classes), 0-4 same-named definitions each with optional @extend_super / @ovld(priority) (on all or only on those "
+        "that need it; the marker on any definition, also stacked on @ovld), 1 case in 6 a diamond generated directly, "
+        "classes that define nothing asserted through the C3 MRO, bodies with self, "
         "recurse and call_next; every class probed on 10 values right after creation and after every later class. "
         "Oracle: reference interpreter over the documented merge/extend/replace/inherit rules; probes of earlier "
         "classes must not change; self identity. Non-trivial = a class with extend_super over >=2 bases or at depth "
